@@ -34,6 +34,7 @@ class ProgGen:
 		self.lines: list[str] = []
 		self.hist: dict[str, int] = {}
 		self.shadow_calls: list[str] = []
+		self.known_rate: float | None = None   # rate of the listed known-finding forms of operator_block (None: its low default)
 
 	def fresh(self, p: str) -> str:
 		self.n += 1
@@ -520,7 +521,7 @@ class ProgGen:
 		for l, r, d in pairs:
 			e = f'{inst[l]} {tokens[d]} {inst[r]}'
 			if depth[r] >= 2:
-				if rng.random() < 0.2:
+				if rng.random() < (0.2 if self.known_rate is None else self.known_rate):
 					decl(e)      # known finding: the result is not used again
 					self.count('operator-operand-indirect-subclass')
 				continue
@@ -548,7 +549,7 @@ class ProgGen:
 			if d == '__lshift__' and st == 'int':
 				# a shift is typed by the LEFT operand's method without looking at the operand (traits.py:205-207): `2 << r` is typed int
 				# although CPython answers r.__rlshift__(2) (known finding shift-reflected-user-operand): low rate, result unused
-				if rng.random() < 0.25:
+				if rng.random() < (0.25 if self.known_rate is None else self.known_rate):
 					decl(f'{lit_} {tokens[d]} {inst[c]}')
 					self.count('shift-reflected-user-operand')
 			elif st != 'str' or d != '__mod__':     # "w" % obj is str formatting
